@@ -7,6 +7,25 @@ from .. import bind
 from ..core import Check, Space
 
 DEFAULTS = [7, "d", 2.5, True, -3, "it's", 0.0, False]
+SPECIAL = [float("inf"), float("-inf"), float("nan"), -0.0, 1e300]  # declared defaults a text round trip does not survive
+
+
+def _drepr(d):
+    if isinstance(d, float) and (d != d or d in (float("inf"), float("-inf"))):
+        return f"float({str(d)!r})"
+    return repr(d)
+
+
+def _same_default(v, d):
+    import math
+
+    if type(v) is not type(d):
+        return False
+    if isinstance(d, float):
+        if math.isnan(d):
+            return math.isnan(v)
+        return v == d and math.copysign(1, v) == math.copysign(1, d)
+    return v == d
 ANN = {int: "int", str: "str", float: "float", bool: "bool"}
 
 
@@ -15,9 +34,12 @@ def signatures(nmax):
     for n in range(1, nmax + 1):
         for o in range(0, n + 1):
             r = n - o
-            for variant in (0, 1):
-                defs = tuple(DEFAULTS[(i + 4 * variant + o) % len(DEFAULTS)] for i in range(o))
-                if (r, defs) not in out:
+            for variant in (0, 1, 2):
+                if variant == 2:
+                    defs = tuple(SPECIAL[(i + n) % len(SPECIAL)] for i in range(o))
+                else:
+                    defs = tuple(DEFAULTS[(i + 4 * variant + o) % len(DEFAULTS)] for i in range(o))
+                if not any(r == r0 and repr(defs) == repr(d0) for r0, d0 in out):
                     out.append((r, defs))
     return out
 
@@ -34,12 +56,22 @@ def call_shapes(n):
     return out
 
 
+KWONLY = [0, 0]  # (required, defaulted) keyword-only parameters appended to every signature of the model being built
+
+
 def sig_src(r, defs, self_=True):
     ps = ["self"] if self_ else []
     for i in range(r):
         ps.append(f"p{i}: int")
     for i, d in enumerate(defs):
-        ps.append(f"p{r + i}: {ANN[type(d)]} = {d!r}")
+        ps.append(f"p{r + i}: {ANN[type(d)]} = {_drepr(d)}")
+    n = r + len(defs)
+    if sum(KWONLY):
+        ps.append("*")
+        for i in range(KWONLY[0]):
+            ps.append(f"p{n + i}: int")
+        for i in range(KWONLY[1]):
+            ps.append(f"p{n + KWONLY[0] + i}: str = 'kwd{i}'")
     return ", ".join(ps)
 
 
@@ -57,15 +89,15 @@ def build_model(r, defs, shared, mname="tgt", ret=" -> float"):
 def _build_model(r, defs, shared):
     """Ev -> jets() -> Jet -> trks() -> Trk; the target method 'tgt' has the signature under test on every
     class when shared (with DIFFERENT defaults per class), else only where it is called."""
-    other1 = tuple((d + 100) if isinstance(d, (int, float)) and not isinstance(d, bool) else
+    other1 = tuple((d + 100 if d == d and abs(d) < 1e200 else 5.5) if isinstance(d, (int, float)) and not isinstance(d, bool) else
                    ((not d) if isinstance(d, bool) else d + "_other") for d in defs)
-    other2 = tuple((d + 200) if isinstance(d, (int, float)) and not isinstance(d, bool) else
+    other2 = tuple((d + 200 if d == d and abs(d) < 1e200 else 6.5) if isinstance(d, (int, float)) and not isinstance(d, bool) else
                    ((not d) if isinstance(d, bool) else d + "_third") for d in defs)
     src = "from typing import Any, Iterable\nfrom func_adl import func_adl_callable\n"
     src += f"class Trk:\n    def q(self) -> float: ...\n    def tgt({sig_src(r, defs)}) -> float: ...  #TGT\n"
     src += f"class Jet:\n    def trks(self, w: int = 1) -> Iterable[Trk]: ...\n    def pt(self) -> float: ...\n" \
            f"    def tgt({sig_src(r, other1 if shared else defs)}) -> float: ...  #TGT\n"
-    src += f"class Ev:\n    def jets(self, kind: str = 'def') -> Iterable[Jet]: ...\n    def a(self) -> float: ...\n" \
+    src += f"class Ev:\n    def jets(self, kind: str = 'def') -> Iterable[Jet]: ...\n    def a(self) -> float: ...\n    def idx(self) -> int: ...\n" \
            f"    def tgt({sig_src(r, other2 if shared else defs)}) -> float: ...  #TGT\n"
     src += f"class JetVec(Iterable[Jet]):\n    def size(self) -> int: ...\n    def tgt({sig_src(r, defs)}) -> float: ...  #TGT\n"
     src += "def _jvec(self) -> JetVec: ...\nEv.jvec = _jvec\n"
@@ -77,6 +109,40 @@ def _build_model(r, defs, shared):
     g["__SRC__"] = src
     return g, {"Trk": defs, "Jet": other1 if shared else defs, "Ev": other2 if shared else defs, "fn": defs,
                "JetVec": defs}
+
+
+MODEL2 = {
+    # site: (dataset item class, lambda template)
+    "dcfield": ("Rec", "lambda {a}: {a}.lead.tgt({ARGS})"),
+    "dcseq": ("Rec", "lambda {a}: {a}.jets.Select(lambda {b}: {b}.tgt({ARGS}))"),
+    "dcfield-d2": ("Ev", "lambda {a}: {a}.rec().lead.tgt({ARGS})"),
+    "dcfield-sub": ("Rec", "lambda {a}: {a}['lead'].tgt({ARGS})"),
+    "generic2": ("Ev", "lambda {a}: {a}.ranked().at().tgt({ARGS})"),
+    "generic2kw": ("Ev", "lambda {a}: {a}.ranked().at(i=1).tgt({ARGS})"),
+    "generic2-d2": ("Ev", "lambda {a}: {a}.recs().Select(lambda {b}: {b}.lead.tgt({ARGS}))"),
+}
+
+
+def _build_model2(r, defs):
+    """a user dataclass with POSTPONED (string) annotations as item type / return type, and a closed subclass two generic
+    levels below the class that declares the method, the middle level re-naming the type variable"""
+    import sys
+    import types
+
+    src = ("from __future__ import annotations\nfrom dataclasses import dataclass\nfrom typing import Generic, Iterable, TypeVar\n"
+           "T = TypeVar('T')\nU = TypeVar('U')\n"
+           f"class Jet:\n    def tgt({sig_src(r, defs)}) -> float: ...\n    def pt(self) -> float: ...\n"
+           "class Bag(Generic[T]):\n    def at(self, i: int = 0) -> T: ...\n"
+           "class Ranked(Bag[U]):\n    pass\n"
+           "class JetList(Ranked[Jet]):\n    pass\n"
+           "@dataclass\nclass Rec:\n    lead: Jet\n    jets: Iterable[Jet]\n    n: int\n"
+           "class Ev:\n    def rec(self) -> Rec: ...\n    def recs(self) -> Iterable[Rec]: ...\n    def ranked(self) -> JetList: ...\n")
+    mod = types.ModuleType("fadlmc_c07_model2")
+    sys.modules["fadlmc_c07_model2"] = mod
+    exec(src, mod.__dict__)
+    g = mod.__dict__
+    g["__SRC__"] = src
+    return g, {"Jet": defs}
 
 
 SITES = {
@@ -103,6 +169,11 @@ SITES = {
     "kwvalue-meth": ("lambda {a}: {a}.jets(kind={a}.tgt({ARGS})).Select(lambda {b}: {b}.pt())", "Ev"),
     # a method of a user's own iterable class (also under names the stream class uses itself)
     "itercoll": ("lambda {a}: {a}.jvec().tgt({ARGS})", "JetVec"),
+    # the typed object comes out of a subscript: constant, negative, computed
+    "sub0": ("lambda {a}: {a}.jets()[0].tgt({ARGS})", "Jet"),
+    "subneg": ("lambda {a}: {a}.jets()[-1].tgt({ARGS})", "Jet"),
+    "subexpr": ("lambda {a}: {a}.jets()[{a}.idx()].tgt({ARGS})", "Jet"),
+    "subneg-d2": ("lambda {a}: {a}.jets().Select(lambda {b}: {b}.trks()[-1].tgt({ARGS}))", "Trk"),
     "after2": ("lambda {a}: {a}.jets().Select(lambda {b}: {b}.trks().Select(lambda {c}: {c}.q()).First() + {b}.tgt({ARGS}))", "Jet"),
 }
 COLLVAR = "collvar"  # stage 1: Select(lambda e: e.jets()); stage 2: lambda js: js.Select(lambda j: js.First().tgt(ARGS))
@@ -135,16 +206,24 @@ class C07(Check):
             for (r, defs) in signatures(N):
                 n = r + len(defs)
                 for shape in call_shapes(n):
-                    for site in list(SITES) + ["dict", "collvar"]:
+                    for site in list(SITES) + ["dict", "collvar"] + (list(MODEL2) if n <= 2 else []):
                         for names in (("e", "j", "t"), ("e", "e", "e")):
                             if names[0] == names[1] and site in ("arg", "d3where", "d2fnchain"):
                                 continue  # these sites mention the outer parameter inside the inner lambda
+                            if site in MODEL2:
+                                out.append((r, defs, shape, site, names, False))
+                                continue
                             for shared in (False, True):
                                 out.append((r, defs, shape, site, names, shared))
                             if site in ("d1", "d2sel", "d3") and names[0] != names[1]:
                                 # the method is called like an attribute of the stream class, or has no usable return type
                                 for variant in ("name:value", "name:Where", "ret:none", "ret:Any"):
                                     out.append((r, defs, shape, site, names, variant))
+                            if site in ("d1", "d2sel", "d1fn") and names[0] != names[1] and n <= 2:
+                                # keyword-only parameters behind the signature (required / defaulted): positional in the emitted call too
+                                for kr, kd in ((1, 0), (0, 1), (1, 1)):
+                                    for kwsub in itertools.chain.from_iterable(itertools.permutations(range(n, n + kr + kd), k) for k in range(kr + kd + 1)):
+                                        out.append((r, defs, (shape[0], tuple(shape[1]) + tuple(kwsub)), site, names, f"kwonly:{kr}{kd}"))
                             if site == "itercoll" and names[0] != names[1]:
                                 for variant in ("name:First", "name:Count", "name:Select"):
                                     out.append((r, defs, shape, site, names, variant))
@@ -159,16 +238,26 @@ class C07(Check):
         defs = tuple(defs)
         bind.reset_type_registries()
         mname, ret = "tgt", " -> float"
-        if isinstance(shared, str):
+        kreq = kdef = 0
+        if isinstance(shared, str) and shared.startswith("kwonly:"):
+            kreq, kdef = int(shared[7]), int(shared[8])
+            KWONLY[:] = [kreq, kdef]
+            try:
+                g, class_defs = build_model(r, defs, False)
+            finally:
+                KWONLY[:] = [0, 0]
+        elif isinstance(shared, str):
             kind, val = shared.split(":")
             if kind == "name":
                 mname = val
             else:
                 ret = "" if val == "none" else " -> Any"
             g, class_defs = build_model(r, defs, False, mname, ret)
+        elif site in MODEL2:
+            g, class_defs = _build_model2(r, defs)
         else:
             g, class_defs = build_model(r, defs, shared)
-        n = r + len(defs)
+        n = r + len(defs) + kreq + kdef
         npos, kws = shape
         # user arguments: distinct constants; the last one an expression of the enclosing lambda's parameter
         argsrc = {i: str(10 + i) for i in range(n)}
@@ -183,13 +272,14 @@ class C07(Check):
         res = {"n": 1, "nt": [], "oc": [], "tags": {}, "viol": []}
         canon = repr(payload)
         # ---------------- expected binding by Python itself
-        tgt_cls = SITES[site][1] if site not in ("dict", "collvar") else "Jet"
-        want_defs = class_defs[tgt_cls]
+        tgt_cls = SITES[site][1] if site not in ("dict", "collvar") and site not in MODEL2 else "Jet"
+        want_defs = tuple(class_defs[tgt_cls]) + (None,) * kreq + tuple(f"kwd{i}" for i in range(kdef))
+        first_default = r
         f = g["fn"] if tgt_cls == "fn" else getattr(g[tgt_cls], mname)
         sig = inspect.signature(f)
         params = [p for p in sig.parameters.values() if p.name != "self"]
         given = {i: argsrc[i] for i in list(range(npos)) + list(kws)}
-        missing = [i for i in range(r) if i not in given]
+        missing = [i for i in list(range(r)) + list(range(r + len(defs), r + len(defs) + kreq)) if i not in given]
         nontrivial = bool(kws) or len(given) < n
         if nontrivial:
             res["nt"].append(canon)
@@ -197,6 +287,8 @@ class C07(Check):
             if site == "dict":
                 s0 = DS(g["Ev"]).Select(f"lambda {a}: {{'js': {a}.jets(), 'n': {a}.a()}}")
                 s = s0.Select(f"lambda {b}: {b}.js.Select(lambda {c}: {c}.tgt({ARGS}))")
+            elif site in MODEL2:
+                s = DS(g[MODEL2[site][0]]).Select(MODEL2[site][1].format(a=a, b=b, c=c, ARGS=ARGS))
             elif site == "collvar":
                 s0 = DS(g["Ev"]).Select(f"lambda {a}: {a}.jets()")
                 s = s0.Select(f"lambda js: js.Select(lambda {c}: js.First().tgt({ARGS}) + {c}.pt())")
@@ -245,7 +337,7 @@ class C07(Check):
                     v = ast.literal_eval(arg)
                 except Exception:
                     v = object()
-                if type(v) is not type(d) or v != d:
+                if not _same_default(v, d):
                     res["oc"].append("wrong-default")
                     res["viol"].append({"kind": "wrong-default", "canon": canon,
                                         "msg": f"param {i}: emitted {ast.unparse(arg)} declared {d!r}: {shown}"})
